@@ -151,25 +151,44 @@ func C18(c *Ctx) {
 	}
 
 	// ---- phase B: shared read-only operands, private receivers (W2), and own copies mutated (W3)
-	sharedS := gen.LibScalar(r.Scalar().K)
-	sharedS2 := gen.LibScalar(r.Scalar().K)
+	sharedE0, _ := r.RandRepr(r.BigBelow(ref.P))
+	sharedF0 := gen.Canon(r.BigBelow(ref.P))
+	wide0 := r.Bytes(64)
+	type shared struct {
+		S, S2   *edwards25519.Scalar
+		P, Q    *edwards25519.Point
+		E, F    *field.Element
+		Bytes   []byte
+		Wide    []byte
+		scalars []*edwards25519.Scalar
+		points  []*edwards25519.Point
+	}
 	pcB := r.Point()
 	if !validPoint(r, &pcB) {
 		pcB.P, pcB.M = edwards25519.NewGeneratorPoint(), ref.Base()
 	}
-	sharedP := pcB.P
-	sharedQ, _ := r.LibPoint(A, 2)
-	if sharedQ == nil {
-		sharedQ = libA
+	// both shared points come out of arithmetic or a rescaling at least half of the time, so
+	// that they are in a general projective representation (Z != 1, unreduced limbs)
+	if r.Bool() {
+		pcB.P, _ = r.LibPoint(pcB.M, 3+r.Intn(2))
+		if pcB.P == nil {
+			pcB.P, _ = r.LibPoint(pcB.M, 4)
+		}
 	}
-	sharedE, _ := r.RandRepr(r.BigBelow(ref.P))
-	sharedF := gen.Canon(r.BigBelow(ref.P))
-	sharedBytes := encOf(pcB.M)
-	sharedWide := r.Bytes(64)
-	scalars := []*edwards25519.Scalar{sharedS, sharedS2, sharedS}
-	points := []*edwards25519.Point{sharedP, sharedQ, sharedP}
-	// sequential reference transcript (computed by one goroutine, the tables are warm)
-	transcript := func() string {
+	mk := func() *shared {
+		sh := &shared{S: gen.LibScalar(k0), S2: gen.LibScalar(ref.SAdd(k0, big.NewInt(77)))}
+		sh.P = new(edwards25519.Point).Set(pcB.P)
+		sh.Q = new(edwards25519.Point).Add(libA, edwards25519.NewIdentityPoint()) // Z != 1
+		sh.E = new(field.Element).Set(sharedE0)
+		sh.F = new(field.Element).Set(sharedF0)
+		sh.Bytes = append([]byte(nil), encOf(pcB.M)...)
+		sh.Wide = append([]byte(nil), wide0...)
+		sh.scalars = []*edwards25519.Scalar{sh.S, sh.S2, sh.S}
+		sh.points = []*edwards25519.Point{sh.P, sh.Q, sh.P}
+		return sh
+	}
+	transcript := func(sh *shared) string {
+		sharedS, sharedS2, sharedP, sharedQ, sharedE, sharedF, sharedBytes, sharedWide, scalars, points := sh.S, sh.S2, sh.P, sh.Q, sh.E, sh.F, sh.Bytes, sh.Wide, sh.scalars, sh.points
 		var sb strings.Builder
 		var v edwards25519.Point
 		sb.Write(v.Add(sharedP, sharedQ).Bytes())
@@ -183,7 +202,9 @@ func C18(c *Ctx) {
 		sb.Write(v.VarTimeMultiScalarMult(scalars, points).Bytes())
 		sb.Write([]byte{byte(sharedP.Equal(sharedQ)), byte(sharedP.Equal(sharedP))})
 		sb.Write(sharedP.Bytes())
+		sb.Write(sharedQ.Bytes())
 		sb.Write(sharedP.BytesMontgomery())
+		sb.Write(sharedQ.BytesMontgomery())
 		X, Y, Z, T := sharedP.ExtendedCoordinates()
 		sb.Write(X.Bytes())
 		sb.Write(T.Bytes())
@@ -231,7 +252,11 @@ func C18(c *Ctx) {
 		sb.Write(g.Bytes())
 		return sb.String()
 	}
-	wantT := transcript()
+	// the sequential reference runs on private deep copies: the shared objects are first
+	// touched by the concurrent goroutines (a lazy write into a "read-only" argument happens
+	// on first use)
+	wantT := transcript(mk())
+	sharedObjs := mk()
 	// model check of a few entries so that the reference itself is anchored
 	if !strings.HasPrefix(wantT, string(encOf(ref.Add(pcB.M, A)))) {
 		c.Fail("sequential reference transcript differs from the model", nil)
@@ -249,7 +274,7 @@ func C18(c *Ctx) {
 			defer wg.Done()
 			start2.Wait()
 			for k := 0; k < rounds; k++ {
-				t := transcript()
+				t := transcript(sharedObjs)
 				if k == 0 || t != wantT {
 					gotT[g] = t
 				}
